@@ -81,4 +81,33 @@ PROPS = {
         "rule": "zero values and constructor values of all 16 types, all 256 values of each rendered byte (hooks and through decoded packets), "
                 "setter histories, successful and failed decodes of hostile frames; String and Dump under recover and a watchdog",
     },
+    "C01": {
+        "suites": [("hist", 3000, 60000), ("read", 3000, 60000), ("wire", 2000, 30000)],
+        "oracle": (4000, 150000),
+        "rule": "packets of the C01 domain: 15 types x random subsets of optional fields x boundary-biased values (lengths 0,1,127,128,16383,"
+                "16384,65534,65535; payloads moving the remaining length over its four forms) plus random setter histories; write, read, compare "
+                "every accessor, re-encode; non-trivial = at least one setter call, distinct by history",
+    },
+    "C02": {
+        "suites": [("hist", 3000, 60000), ("write", 2000, 40000)],
+        "oracle": (4000, 150000),
+        "rule": "well-formed packets of the C01 domain (same generators, mandatory list elements added); WriteTo bytes judged by the extracted "
+                "strict specification decoder and its reading compared with all accessors; non-trivial = at least one setter call",
+    },
+    "C03": {
+        "theorem_files": ["Properties/C03.v", "Findings/C03_disconnect.v"],
+        "suites": [("read", 3000, 60000)],
+        "oracle": (4000, 150000),
+        "rule": "frames from the specification's encoder over random abstract packets: 15 types x property subsets x random permutations x "
+                "explicit zeros x repeated user properties/subscription ids x short/long forms x boundary lengths; ReadPacket must accept and "
+                "report the carried values; non-trivial = frame longer than 2 bytes",
+    },
+    "C09": {
+        "suites": [("read", 3000, 60000), ("unm", 3000, 40000), ("wire", 2000, 30000)],
+        "oracle": (6000, 250000),
+        "rule": "valid frames (C03 generator) x every interior cut of every 2/4-byte integer, string, property length and property per the "
+                "specification's field map (all offsets for fields <= 6 bytes), 5-byte variable byte integers at remaining length, property "
+                "length and subscription identifier, boolean properties with values 2..255, undefined identifiers after j valid properties; "
+                "each also rejected by the strict specification decoder; all non-trivial",
+    },
 }
